@@ -39,6 +39,24 @@ def main():
     a = ap.parse_args()
     if a.setup:
         return setup()
+    if a.replay:
+        # composite checks (C09, C13, C10) record which family a violation came from
+        import json as _json
+        rp = _json.load(open(a.replay)).get("replay", {})
+        fam = rp.get("family")
+        if fam is None and isinstance(rp.get("scenario"), dict):
+            fam = "engine" if "single" in rp["scenario"] else ("app" if "loaders" in rp["scenario"] else None)
+        if fam is None and "scenarios" in rp:
+            fam = "resolve"
+        if fam == "engine":
+            import check_engine
+            return check_engine.run_check(a.prop if a.prop in ENGINE else "C09", a.tier, a.replay)
+        if fam == "resolve":
+            import check_resolve
+            return check_resolve.run_check(a.prop if a.prop in RESOLVE else "C07", a.tier, a.replay)
+        if fam == "app":
+            import check_app
+            return check_app.run_check(a.prop if a.prop in APP else "C13", a.tier, a.replay)
     if a.prop in ENGINE:
         import check_engine
         return check_engine.run_check(a.prop, a.tier, a.replay)
